@@ -3,7 +3,7 @@
    to the handler, termination with propagate_exit_signals; after fix commit 84e81b9.  One operation = one API call
    run to quiescence.  The correspondence run drives a real Node with instrumented processes. *)
 From EDP Require Import Base.Bytes Term.Term Order.Cmp Codec.Decode Dist.Control Node.Node Node.NodeFacts Gen.LockScope.
-From EDP Require Conc.Interleave Conc.RegisterConc Node.GenServer Node.GenServerFacts Node.GenEvent Node.GenEventFacts.
+From EDP Require Conc.Interleave Conc.RegisterConc Node.GenServer Node.GenServerFacts Node.GenEvent Node.GenEventFacts Node.GenEventLog.
 Open Scope N_scope.
 
 (* accepted for a live process: handed to it exactly once, after everything it received before; nobody else is
@@ -154,5 +154,12 @@ Example C18_gen_event_example :
   = [(c 2, TAtom GenServer.n_ok); (c 1, TTuple [TRef [99] 1 [7] None; TInt 2]);
      (c 2, TTuple [TRef [99] 1 [8] None; TAtom GenEvent.n_error]); (c 1, TTuple [TRef [99] 1 [9] None; TList [TAtom [108]]])].
 Proof. vm_compute. reflexivity. Qed.
+
+(* a notified event is shown to every installed handler exactly once, in the order of the handler table, whatever the
+   handlers answer (continue, ask to be removed, fail, swap themselves for a successor) *)
+Theorem C18_gen_event_every_handler_sees_the_event_once : forall H on_init on_event s e,
+  filter GenEventLog.is_event (GenEvent.e_log (GenEvent.notify H on_init on_event s e)) =
+  filter GenEventLog.is_event (GenEvent.e_log s) ++ map (fun kh => GenEvent.HEvent (fst kh) e) (GenEvent.e_handlers s).
+Proof. exact GenEventLog.every_handler_sees_the_event_once. Qed.
 
 Check C18_exit_notices.
